@@ -380,7 +380,18 @@ func runC19b(e *env, tier string) {
 	c, r := e.c, e.r
 	start := time.Date(2024, 1, 1, 0, 0, 0, 0, time.UTC)
 	g := certgen.New(c, false)
-	w := ecworld.New(start, 30*time.Second, g.InitialTable(2+c.Intn(4)))
+	genesisTable := g.InitialTable(2 + c.Intn(4))
+	if c.Chance(350) {
+		// big powers and one member whose power scales to zero (it can never be a signer)
+		for i := range genesisTable {
+			genesisTable[i].Power = gpbft.NewStoragePower(genesisTable[i].Power.Int64() * 100_000)
+		}
+		dust := g.InitialTable(1)
+		dust[0].Power = gpbft.NewStoragePower(1)
+		genesisTable = certgen.Canon(append(genesisTable, dust...))
+		r.Probe("world_with_zero_scaled_member")
+	}
+	w := ecworld.New(start, 30*time.Second, genesisTable)
 	// a linear chain whose power table evolves every few epochs
 	n := 1 + c.Intn(6)
 	if tier == "thorough" {
@@ -479,6 +490,93 @@ func runC19b(e *env, tier string) {
 	}
 	if distinct > 0 {
 		r.Probe("lookback_shift_would_be_visible")
+	}
+	// "accepts exactly": a forged variant of a generated certificate must be judged by the
+	// generator's Validate the way a node's certificate validation judges it
+	if e.viol == nil && len(crts) > 0 && c.Chance(350) {
+		i := c.Intn(len(crts))
+		k := m.InitialInstance + uint64(i)
+		comBlk := refCommittee(k)
+		if comBlk != nil {
+			tbl := certgen.Canon(comBlk.Table)
+			forged := *crts[i]
+			// scaled powers (exact arithmetic) of the committee
+			total := new(big.Int)
+			for _, en := range tbl {
+				total.Add(total, en.Power.Int)
+			}
+			var idx []int
+			_ = forged.Signers.ForEach(func(b uint64) error { idx = append(idx, int(b)); return nil })
+			what, bitFlip := "", false
+			switch c.Intn(3) {
+			case 0: // one more signer (preferably one whose scaled power is zero), aggregate recomputed
+				add := -1
+				for j, en := range tbl {
+					in := false
+					for _, x := range idx {
+						in = in || x == j
+					}
+					x := new(big.Int).Mul(en.Power.Int, big.NewInt(65535))
+					zero := x.Div(x, total).Sign() == 0
+					if !in && (add < 0 || zero) {
+						add = j
+					}
+				}
+				if add >= 0 {
+					idx = append(idx, add)
+					sort.Ints(idx)
+					what = fmt.Sprintf("signer %d added and the aggregate recomputed", add)
+				}
+			case 1: // a signer dropped, aggregate recomputed
+				if len(idx) > 1 {
+					d := c.Intn(len(idx))
+					idx = append(append([]int(nil), idx[:d]...), idx[d+1:]...)
+					what = "one signer dropped and the aggregate recomputed"
+				}
+			case 2:
+				what, bitFlip = "one bit of the aggregate flipped", true
+			}
+			if what != "" {
+				if !bitFlip { // recompute the aggregate for the new signer set
+					payload := gpbft.Payload{Instance: k, Phase: gpbft.DECIDE_PHASE, SupplementalData: forged.SupplementalData, Value: forged.ECChain}
+					msg := payload.MarshalForSigning(m.NetworkName)
+					sigs := make([][]byte, len(idx))
+					for j, x := range idx {
+						sg, err := g.Sig.Sign(bg, tbl[x].PubKey, msg)
+						if err != nil {
+							kernel.Infra("sign: %v", err)
+						}
+						sigs[j] = sg
+					}
+					agg, err := g.Sig.Aggregate(tbl.PublicKeys())
+					if err != nil {
+						kernel.Infra("aggregate: %v", err)
+					}
+					as, err := agg.Aggregate(idx, sigs)
+					if err != nil {
+						kernel.Infra("aggregate: %v", err)
+					}
+					forged.Signers, forged.Signature = bitfieldOf(idx), as
+				} else {
+					forged.Signature = append([]byte(nil), forged.Signature...)
+					forged.Signature[c.Intn(len(forged.Signature))] ^= 1 << uint(c.Intn(8))
+				}
+				chain := append(append([]*certs.FinalityCertificate(nil), crts[:i]...), &forged)
+				first := refCommittee(m.InitialInstance)
+				_, _, _, nodeErr := certs.ValidateFinalityCertificates(g.Sig, m.NetworkName, certgen.Canon(first.Table), m.InitialInstance, nil, chain...)
+				cc3, err := certchain.New(certchain.WithEC(w), certchain.WithManifest(m), certchain.WithSignVerifier(g.Sig), certchain.WithSeed(int64(c.Intn(1<<30))))
+				if err != nil {
+					kernel.Infra("certchain.New: %v", err)
+				}
+				ccErr := cc3.Validate(bg, chain)
+				r.Fault("forged_certificate_for_certchain")
+				r.Tracef("forged certificate %d (%s): node %v, certchain %v", k, what, nodeErr, ccErr)
+				if (nodeErr == nil) != (ccErr == nil) {
+					e.fail("certchain_accepts_differently_from_node", "validate", "certificate %d with %s: a node's certificate validation says %v, certchain.Validate says %v", k, what, nodeErr, ccErr)
+					return
+				}
+			}
+		}
 	}
 	// the node's own rule over the same EC and the same certificates (store holds certificates up
 	// to k-lookback only, so the node derives the table from EC at the look-back head)
